@@ -1085,6 +1085,7 @@ def random_plan(rng, world, kinds, n, on_re=False):
     ndev = len(world.devs)
     in_run = False
     k = 0
+    c = None
     while k < n:
         k += 1
         u = rng.random()
@@ -1121,7 +1122,9 @@ def random_plan(rng, world, kinds, n, on_re=False):
         except GeneratorExit:
             raise
         except Exception:
-            if rng.random() < 0.75:
+            # (a plan never survives an exception that arrives right after its open_run: plan_mutator then keeps a stale
+            # tail entry keyed by the id() of a dead generator -- allocator dependent, see notes/C23.md)
+            if rng.random() < 0.75 or c == "runmark":
                 raise
     if in_run:
         yield Msg("close_run", exit_status=None, reason=None)
@@ -1581,7 +1584,7 @@ def run_paired(ctx, prop, exhaustive_cfg, kinds, invs, plans, pool, kf_sig, kf_w
 
     # ---- 3. code -> spec ------------------------------------------------------------------------------------------
     rng = random.Random(ctx.seed)
-    n1, n2 = (150, 120) if ctx.quick else (5000, 2500)
+    n1, n2 = (150, 120) if ctx.quick else (3000, 1500)
     for src, traces in (("random chain, scripted driver", random_paired_traces(rng, n1, pool)),
                         ("random chain, real RunEngine", re_paired_traces(rng, n2, pool))):
         for t in traces:
